@@ -28,6 +28,9 @@ pub mod percent;
 pub mod route;
 pub mod thread;
 
+#[cfg(humphrey_verif)]
+pub mod verif_trace;
+
 #[cfg(test)]
 mod tests;
 
